@@ -363,7 +363,21 @@ func (env *SpecEnv) seqEq(a, b *SeqV) Term {
 	if len(parts) == 0 {
 		c.n++
 		i := Term{S: fmt.Sprintf("k$%d", c.n), Sort: SInt}
-		parts = append(parts, Forall([]Term{i}, Implies(And(Le(IntLit(0), i), Lt(i, a.Len)), Eq(a.At(i), b.At(i)))))
+		q := Forall([]Term{i}, Implies(And(Le(IntLit(0), i), Lt(i, a.Len)), Eq(a.At(i), b.At(i))))
+		// both sequences already have a materialised array (zero outside the range): with equal lengths, equality of
+		// the arrays is the same statement, and it can follow by plain equational reasoning where the quantified form
+		// has no trigger (two conditional sequences related through a third one)
+		if env.quant == 0 {
+			probe := Term{S: "$i", Sort: SInt}
+			ka := "mat|" + a.Len.S + "|" + a.At(probe).S
+			kb := "mat|" + b.Len.S + "|" + b.At(probe).S
+			if ta, ok := c.named[ka]; ok {
+				if tb, ok := c.named[kb]; ok {
+					q = Or(q, Eq(ta, tb))
+				}
+			}
+		}
+		parts = append(parts, q)
 	}
 	return And(append([]Term{Eq(a.Len, b.Len)}, parts...)...)
 }
